@@ -297,7 +297,11 @@ class Parser:
                 if self.eat("="):
                     init = self.parse_expr()
                     if self.at("else"):
-                        raise RsError("let-else not supported")
+                        self.i += 1
+                        els = self.parse_block()
+                        self.expect(";")
+                        stmts.append(("letelse", pat, init, els))
+                        continue
                 self.expect(";")
                 stmts.append(("let", pat, init))
                 continue
